@@ -39,6 +39,9 @@ pub enum Fault {
     /// section, or a count that disagrees with a later section: what only whole-module validation catches)
     #[serde(alias = "EmptySection")]
     EmptySectionInsert { id: u8, at: usize },
+    /// the data count section announces `value` segments (written over the existing section, or inserted in
+    /// front of the code / data section): fewer or more than the data section then brings
+    DataCountSet { value: u32 },
     /// a construct of an unsupported proposal grafted in: 0 tag section, 1 GC struct type, 2 component header
     Graft { kind: u8 },
     /// an edit inside function body `func` of the code section (what a buggy producer writes):
@@ -69,6 +72,7 @@ impl Fault {
             Fault::SectionDup { .. } => "section_dup",
             Fault::SectionSwap { .. } => "section_swap",
             Fault::EmptySectionInsert { .. } => "empty_section_insert",
+            Fault::DataCountSet { .. } => "data_count_set",
             Fault::Graft { .. } => "feature_graft",
             Fault::BodyEdit { tag, .. } => match tag {
                 1 => "overlong_leb_in_body",
@@ -206,6 +210,28 @@ fn apply_inner(b: &mut Vec<u8>, f: &Fault) -> bool {
             b.extend_from_slice(&copy);
             b.extend_from_slice(&tail);
             true
+        }
+        Fault::DataCountSet { value } => {
+            let Some(secs) = wasmsplit::split(b) else { return false };
+            let mut sec = vec![12u8];
+            let v = wasmsplit::leb_u32(*value);
+            sec.extend_from_slice(&wasmsplit::leb_u32(v.len() as u32));
+            sec.extend_from_slice(&v);
+            if let Some(d) = secs.iter().find(|s| s.id == 12) {
+                let tail = b.split_off(d.range.end);
+                b.truncate(d.range.start);
+                b.extend_from_slice(&sec);
+                b.extend_from_slice(&tail);
+                return true;
+            }
+            let at = secs.iter().position(|s| s.id == 10 || s.id == 11).unwrap_or(secs.len());
+            match wasmsplit::insert_section(b, at, &sec) {
+                Some(nb) => {
+                    *b = nb;
+                    true
+                }
+                None => false,
+            }
         }
         Fault::EmptySectionInsert { id, at } => {
             let Some(secs) = wasmsplit::split(b) else { return false };
@@ -513,7 +539,16 @@ pub fn draw(rng: &mut Rng, b: &[u8], others: &[Vec<u8>], enabled: u32) -> Option
                 if s.is_empty() {
                     continue;
                 }
-                match rng.below(4) {
+                match rng.below(5) {
+                    4 => {
+                        // the number of data segments the data section really has
+                        let d = s.iter().find(|x| x.id == 11).and_then(|x| read_leb_u32(b, x.payload.start)).map(|(n, _)| n).unwrap_or(0);
+                        let mut cands = vec![d + 1, 0, d + 2];
+                        if d > 0 {
+                            cands.push(d - 1);
+                        }
+                        Fault::DataCountSet { value: *rng.pick(&cands) }
+                    }
                     0 => Fault::SectionDrop { idx: rng.usize_below(s.len()) },
                     1 => Fault::SectionDup { idx: rng.usize_below(s.len()) },
                     2 => Fault::EmptySectionInsert { id: 1 + rng.below(12) as u8, at: rng.usize_below(s.len() + 1) },
